@@ -16,6 +16,7 @@ THEOREM_DEPS = []
 
 SIG_F15 = "integration-zero-length-repeat"
 SIG_F16 = "pull-fanout-eviction"
+SIG_F19 = "dpull-repeated-pull"
 
 
 def classify(spec, impl):
@@ -30,6 +31,14 @@ def classify(spec, impl):
         return SIG_F15
     if impl["error"] == "other" and "NoneType" in msg and "sum" in kinds and repeats:
         return SIG_F15
+    if impl["error"] == "FinamTimeError":
+        # a DelayToPull adapter feeding a pull-based component that is pulled more than once per consumer update:
+        # the first pull advances the adapter's request history, the second one asks for a later time than the
+        # driver assumed when scheduling
+        for l in spec["links"]:
+            if any(a[0] == "dpull" for a in l["ads"]) and spec["comps"][l["dst"]]["kind"] == "pull" \
+                    and sum(1 for m in spec["links"] if m["src"] == l["dst"]) > 1:
+                return SIG_F19
     if impl["error"] == "FinamTimeError" and ("out of range" in msg or "in the past" in msg):
         # a pull-based component whose outputs feed more than one consumer path
         for i, c in enumerate(spec["comps"]):
@@ -139,4 +148,7 @@ KNOWN_CASES = {
               "links": [{"src": 0, "out": 0, "dst": 1, "ads": []}, {"src": 1, "out": 0, "dst": 2, "ads": []},
                         {"src": 1, "out": 0, "dst": 3, "ads": []}], "order": [0, 1, 2, 3], "end": 12},
 }
+KNOWN_CASES[SIG_F19] = {"comps": [{"kind": "time", "start": 0, "steps": [6]}, {"kind": "pull", "nout": 2}, {"kind": "time", "start": 0, "steps": [5]}],
+                        "links": [{"src": 0, "out": 0, "dst": 1, "ads": [["next"], ["dpull", 1, 2]]}, {"src": 1, "out": 1, "dst": 2, "ads": []},
+                                  {"src": 1, "out": 0, "dst": 2, "ads": []}], "order": [2, 1, 0], "end": 1}
 KNOWN_REPRO = {k: _known(v) for k, v in KNOWN_CASES.items()}
